@@ -227,6 +227,7 @@ class _RecorderState:
         self.last_n = len(nested_samples) + (0 if live_points is None else len(live_points))
 
 
+PARALLEL_UNITS = True
 MODS = ["nessai.samplers.importancesampler", "nessai.utils.structures"]
 
 
